@@ -252,7 +252,7 @@ class DataclassFieldData:
         }
 
 
-@contract("json_to_models/models/structure.py::sort_fields", props=["C03", "C04", "C01"])
+@contract("json_to_models/models/structure.py::sort_fields", props=["C03", "C04", "C01", "C18"])
 class SortFields:
     """C03: required fields are emitted before optional ones; every key is in exactly one of the two lists;
     a key is optional iff its type is Optional[...]"""
